@@ -10,7 +10,7 @@ import numpy as np
 from gens import atoms_of, base_cells, make_supercell
 from tensors import same_span
 
-UNITS = ["ShapesSpg", "ShapesGeom", "ShapesReps", "SkelSpg", "SkelCut", "ShapesApi", "SkelApi"]
+UNITS = ["ShapesSpg", "ShapesGeom", "ShapesReps", "SkelSpg", "SkelCut", "ShapesApi", "SkelApi", "IndepGen"]
 PROPS = ["props/C10.v"]
 EXTRA = ["theories/Spg.vo"]
 ASSUMPTIONS = ["that spglib returns the conjugated group for the transformed description, and the float rounding/sorting fast path, are not modelled: the relation between runs of the real code is established by this metamorphic oracle (partial)"]
@@ -39,7 +39,7 @@ def check(ctx):
     rng = np.random.default_rng(ctx.seed)
     ctx.rule = ("cells: triclinic, monoclinic, hexagonal, centred cubic, supercells with n_lp>1; transformations: random atom permutation, origin shifts (random; onto 0.5; onto 0.5-1e-9; by -position of an atom), "
                 "integer wraps in [-3,3], unimodular basis changes, proper/improper random rotations; orders (2,3) and, for N<=2, (2,3,4). Non-trivial: the transformation changes the arrays")
-    cells = [("mono_P", (1, 1, 1)), ("tri2_P1", (2, 1, 1)), ("hcp", (1, 1, 1)), ("bcc_conv", (1, 1, 1)), ("tri1", (2, 2, 1)), ("p3_general", (1, 1, 1)), ("tri2_P1", (1, 3, 1))]
+    cells = [("mono_P", (1, 1, 1)), ("tri2_P1", (2, 1, 1)), ("hcp", (1, 1, 1)), ("bcc_conv", (1, 1, 1)), ("tri1", (2, 2, 1)), ("p3_general", (1, 1, 1)), ("tri2_P1", (1, 3, 1)), ("si_prim", (1, 1, 1))]   # si_prim: rhombohedral axes, every rotation mixes the third basis vector with the others
     if not ctx.quick:
         cells += [("wurtzite", (1, 1, 1)), ("ortho_C", (1, 1, 2)), ("si_prim", (2, 1, 1)), ("rhombo2", (1, 1, 1)), ("mono_C", (1, 1, 1)), ("nacl_prim", (2, 1, 1)), ("tri2_Pm1", (1, 1, 1))]
     # supercells with >= 3 lattice points along an axis (t and -t differ) under origins that put atoms within float
